@@ -77,10 +77,10 @@ def mk_input(vecs, form):
         elif a.min() >= 0 and a.max() <= 255 and int(a.sum()) % 4 == 2:
             a = a.astype(np.uint8)      # small counts in a narrow unsigned type
     if form == 'rdms':
-        return RDMs(a.copy())
+        return RDMs(gen.relayout(a.copy()))
     if form == 'array1d' and a.shape[0] == 1:
         return a[0].copy()
-    return a.copy()
+    return gen.relayout(a.copy())   # C / Fortran / strided / transposed memory, by shape
 
 
 def call(method, v1, v2, sigma, form1='array2d', form2='array2d', api='compare',
